@@ -101,7 +101,7 @@ def validate(rep, path, label, chunk=30000, par=4):
 def gen_long(rep, w, tier):
     """TLC emits grammar-generated long tokens (and checks them against both readings of the grammar)."""
     out = w + '/long.ndjson'
-    r = lib.tlc('GenLexLong', 'GenLexLong_%s.cfg' % tier, workers=1, env={'OUT': out}, timeout=300, xmx='3g')
+    r = lib.tlc('GenLexLong', 'GenLexLong_%s.cfg' % tier, workers=1, env={'OUT': out}, timeout=600, xmx='3g')
     rep.add_tlc('GenLexLong', r, 'emission of grammar-generated long tokens; LongOk: each is a token of its grammar and of its recogniser')
     if r.violations:
         rep.broken.append('specification rejects its own generated tokens: %s' % r.violations)
@@ -134,7 +134,7 @@ def run(pid, tier):
     plan = []
     for name, alpha, nq, nt, ids in GROUPS:
         plan.append((name, 'enum', alpha, 0, nq if q else nt, ids, 0, '-'))
-    nrand = 1000 if q else 20000
+    nrand = 1000 if q else 10000
     for name, alpha, nq, nt, ids in GROUPS:
         n = nq if q else nt
         plan.append(('r' + name, 'rand', alpha, n + 1, n + 8, ids, nrand, '-'))
